@@ -107,7 +107,7 @@ func resolveFieldAliases(w *World) {
 			return strings.HasPrefix(t, "map[") && strings.Contains(t, "uuid.UUID]") && strings.HasSuffix(t, "PipelineJob")
 		},
 		"defs":             has("definition.PipelinesDef"),
-		"isShuttingDown":   is("bool"),
+		"isShuttingDown":   is("bool", "int"), // a flag, or a small state enum of the module (expanded to its underlying type)
 		"persistRequests":  func(t string, _ *types.Var) bool { return strings.HasPrefix(t, "chan ") },
 		"store":            has("store.DataStore"),
 		"outputStore":      has("taskctl.OutputStore"),
